@@ -749,7 +749,7 @@ def check(run):
     rjobs = [dict(j, type="render") for j in c16_render.render_jobs(run, thorough)]
     jobs = sorted(ljobs, key=lambda j: 0 if j["name"].startswith("3t") else 1) + rjobs
     pool = mp.get_context("fork").Pool(min(procs, len(jobs)))        # forked before any helper thread exists
-    deadline = 3000 if thorough else 280
+    deadline = core.tscale(3000 if thorough else 280)
     finishers = []
     try:
         pending = {j["name"]: pool.apply_async(_job, (j,)) for j in jobs}
